@@ -18,7 +18,7 @@ ConstInit == FixD4 = TRUE
 Vals == {Absent, Dflt} \cup CallerVals
 
 AnyOp ==
-  {Op("set", k, v) : k \in BKeys, v \in CallerVals}
+  {Op("set", k, v) : k \in BKeys, v \in {"v1", "v2", "v3"}}
     \cup {Op("ack", "", ""), Op("footer", "", "f1"), Op("assertion", "", "a1"), Op("build", "", "")}
 
 Init == b = BInit("prelude")
